@@ -4,6 +4,7 @@ From Coq Require Import String.
 From PX.Lib Require Import Base PyStr Regex.
 From PX.Lib Require Import PyInt.
 From PX.Model Require Import Show Validation Path Segment Syntax Raw Reader Writer Norm.
+From PX.Model Require UnitsErrh.
 From PX.Spec Require C13_dec C14_spec C04_spec C04_nest C01_spec.
 
 Definition unit_validation (args : list str) : str :=
@@ -298,4 +299,5 @@ Definition dispatch (unit : str) (args : list str) : str :=
   else if str_eqb unit (sl "split_syntax") then unit_split_syntax args
   else if str_eqb unit (sl "pyint") then unit_pyint args
   else if str_eqb unit (sl "pystr") then unit_pystr args
+  else if str_eqb unit (sl "errh") then UnitsErrh.unit_errh args
   else sl "?unit".
